@@ -188,6 +188,16 @@ Definition pop_ok (s : st) (g : ghost) (u : nat) : Prop :=
   | _ => True
   end.
 
+(* fiber u has popped f's entry and is on its way to schedule f *)
+Definition inflight (s : st) (u f : nat) : Prop :=
+  match stk s u with
+  | KData _ _ _ _ nx :: _ => ndata (mem s) nx = fname f
+  | KCopy _ _ _ _ d :: _ => d = fname f
+  | KOut _ _ _ h :: _ => ndata (mem s) h = fname f
+  | KState _ _ _ f' :: _ | KReady _ _ _ f' :: _ => f' = f
+  | _ => False
+  end.
+
 Definition slots_empty (m : kmem) (t : nat) : Prop :=
   slot_sched m t = false /\ slot_mpmc m t = None /\ slot_mutex m t = None /\ slot_wait m t = None.
 
@@ -209,7 +219,8 @@ Record InvG (s : st) (g : ghost) : Prop := {
   i_held : forall t, held_ok s g t;
   i_pop : forall u, pop_ok s g u;
   i_one : forall u v, is_popper (stk s u) -> is_popper (stk s v) -> u = v;
-  i_headnz : forall sd, qhead (mem s) (qof sd) <> O
+  i_headnz : forall sd, qhead (mem s) (qof sd) <> O;
+  i_popped : forall f sd, grole g f = RWait sd Popped -> exists u, inflight s u f
 }.
 
 Definition Inv (s : st) : Prop := exists g, InvG s g.
@@ -260,6 +271,9 @@ Proof.
     try (specialize (IH (S k)); match goal with |- context [start t p (S k) ?h] =>
       specialize (IH h); destruct (start t p (S k) h); exact IH end).
 Qed.
+
+Lemma inflight_popper s u f : inflight s u f -> is_popper (stk s u).
+Proof. unfold inflight. destruct (stk s u) as [|[] ?]; cbn; tauto. Qed.
 
 (* ---------- frame lemmas ---------- *)
 Definition is_wlink (k : stack rwc) : Prop := match k with WLink _ _ _ :: _ => True | _ => False end.
@@ -331,4 +345,5 @@ Proof.
   - intros u. exact I.
   - intros u v [].
   - intros sd; discriminate.
+  - intros f sd H; discriminate.
 Qed.
